@@ -53,8 +53,61 @@ export const PROBES = [
   },
 ];
 
+// two declarations of different meaning under one name in two files, by declaration kind and import style
+const obj = (fields) => ({ $obj: "plain", fields: fields.map(([k, v]) => [k, v, 1]) });
+function sameNameGrid() {
+  const kinds = {
+    alias: { decl: (n, v) => `type ${n} = ${JSON.stringify(v)};`, use: (n) => n },
+    iface: { decl: (n, v) => `interface ${n} { k: ${JSON.stringify(v)} }`, use: (n) => `${n}["k"]` },
+    "enum-member": { decl: (n, v) => `enum ${n} { A = ${JSON.stringify(v)} }`, use: (n) => `${n}.A` },
+    "enum-whole": { decl: (n, v) => `enum ${n} { A = ${JSON.stringify(v)} }`, use: (n) => n },
+    "enum-member-in-alias": { decl: (n, v) => `enum ${n}_e { A = ${JSON.stringify(v)} }\n${"export "}type ${n} = ${n}_e.A;`, use: (n) => n, twoDecls: true },
+    "const-typeof": { decl: (n, v) => `const ${n} = ${JSON.stringify(v)} as const;`, use: (n) => `typeof ${n}` },
+  };
+  const out = [];
+  for (const [kind, K] of Object.entries(kinds))
+    for (const style of ["renamed", "namespace"])
+      for (const shape of ["fields", "nested"]) {
+        const wrap = (x, y) => (shape === "fields" ? `{ x: ${x}; y: ${y} }` : `{ x: ${x}; inner: { y: ${y} }[] }`);
+        const val = (x, y) => (shape === "fields" ? obj([["x", x], ["y", y]]) : obj([["x", x], ["inner", [obj([["y", y]])]]]));
+        const single = `${K.decl("EA", "a1").replace("export ", "")}\n${K.decl("EB", "b1").replace("export ", "")}\nexport const Parsers = parse.buildParsers<{ P: ${wrap(K.use("EA"), K.use("EB"))} }>();\n`;
+        const exp = (text) => (K.twoDecls ? text.replace(/^enum /, "export enum ") : "export " + text);
+        // in the files both are called E (the inner enum of the two-declaration kind as well)
+        const fa = exp(K.decl("E", "a1")) + "\n",
+          fb = exp(K.decl("E", "b1")) + "\n";
+        const entry =
+          style === "renamed"
+            ? `import { E as EA } from "./a";\nimport { E as EB } from "./b";\nexport const Parsers = parse.buildParsers<{ P: ${wrap(K.use("EA"), K.use("EB"))} }>();\n`
+            : `import * as NA from "./a";\nimport * as NB from "./b";\nexport const Parsers = parse.buildParsers<{ P: ${wrap(K.use("NA.E"), K.use("NB.E"))} }>();\n`;
+        if (style === "namespace" && kind === "const-typeof") continue; // typeof NA.E is a value path, not in the grammar beff documents
+        out.push({ id: `same-name:${kind}:${style}:${shape}`, single, files: { "entry.ts": entry, "a.ts": fa, "b.ts": fb }, values: [val("a1", "b1"), val("b1", "b1"), val("a1", "a1"), val("b1", "a1")], collision: true });
+      }
+  return out;
+}
+
 export async function run(ctx) {
   if (ctx.shard === 0) {
+    for (const p of sameNameGrid()) {
+      const a = await compileFiles(ctx, { "entry.ts": p.single });
+      const b = await compileFiles(ctx, p.files);
+      ctx.judged();
+      ctx.count("same_name_grid");
+      const where = { kind: "split", single: p.single, files: p.files, collision: { grid: p.id } };
+      if (!a.parsers) {
+        ctx.inconclusive("same-name-grid:single-file-form-rejected");
+        continue;
+      }
+      if (!b.parsers) {
+        ctx.violation({ signature: `split-project-rejected|${variantOf(b.res)}|name-collision|${p.id}`, clause: "outcome-differs", detail: `${p.id}: ${JSON.stringify(b.res.diagnostics?.[0]?.message ?? b.res.outcome)}`, replay: where });
+        continue;
+      }
+      const vals = p.values.map(fromEjson);
+      const v1 = verdicts(a.parsers.P, vals),
+        v2 = verdicts(b.parsers.P, vals);
+      if (v1.join("") !== "YNNN") throw new Error(`C09 same-name grid: single-file verdicts ${v1.join("")} for ${p.id}`);
+      const i = v1.findIndex((x, k) => x !== v2[k]);
+      if (i >= 0) ctx.violation({ signature: `verdicts-differ|name-collision|${p.id}`, clause: "validators-differ", detail: `${p.id}: single-file ${v1.join("")} split ${v2.join("")}\n${Object.entries(p.files).map(([k, v]) => `--- ${k} ---\n${v}`).join("\n")}`, replay: { ...where, parser: "P", value: p.values[i] } });
+    }
     for (const p of PROBES) {
       const a = await compileFiles(ctx, { "entry.ts": p.single });
       const b = await compileFiles(ctx, p.files);
